@@ -25,6 +25,7 @@ struct lin
 {
     std::vector<std::pair<int, int>> cs;
     hep::vegas_pdf<T> const* pdf = nullptr;
+    bool reads_weight = false;     // multi-channel: the integrand looks at point.weight() itself (twice) before returning
     static std::string& complaint() { static std::string s; return s; }
 
     T f(std::vector<T> const& y) const
@@ -57,7 +58,15 @@ struct lin
         }
         return f(p.point());
     }
-    T operator()(hep::multi_channel_point<T> const& p) const { return f(p.coordinates()); }
+    T operator()(hep::multi_channel_point<T> const& p) const
+    {
+        if (reads_weight)
+        {
+            T const w1 = p.weight(), w2 = p.weight();
+            if (!vf::same_bits(w1, w2) && complaint().empty()) complaint() = "point.weight() returned " + vf::dec(w1) + " and then " + vf::dec(w2) + " for the same point";
+        }
+        return f(p.coordinates());
+    }
 };
 
 template <typename T>
@@ -297,6 +306,28 @@ static void vegas_cases(report& r, bool thorough)
 
 // ---- MULTI-CHANNEL -----------------------------------------------------------------------------------
 
+// A map written as a function object with memory: it remembers the coordinates it produced and evaluates the
+// densities and the jacobian at the remembered point (ignoring the buffer it is handed).  Legitimate as long as
+// both requests of a point go to the same map object.
+template <typename T>
+struct remembering_map
+{
+    vf::pl_map<T> inner;
+    mutable std::vector<T> remembered;
+    T operator()(std::size_t channel, std::vector<T> const& rn, std::vector<T>& coords, std::vector<std::size_t> const& enabled,
+        std::vector<T>& dens, hep::multi_channel_map action) const
+    {
+        if (action == hep::multi_channel_map::calculate_coordinates)
+        {
+            T const j = inner(channel, rn, coords, enabled, dens, action);
+            remembered = coords;
+            return j;
+        }
+        std::vector<T> at = remembered;
+        return inner(channel, rn, at, enabled, dens, action);
+    }
+};
+
 template <typename T>
 static L mc_expected(std::vector<std::pair<int, int>> const& cs, int jac)
 {
@@ -333,10 +364,17 @@ static void mc_one(report& r, std::string const& id, std::vector<T> const& split
     vf::script_engine gen;
     r.eval();
     L got;
-    auto integrand = hep::make_multi_channel_integrand<T>(lin<T>{cs}, d, map, d, c);
-    if (entry == 0)
+    lin<T>::complaint().clear();
+    auto integrand = hep::make_multi_channel_integrand<T>(lin<T>{cs, nullptr, entry == 3}, d, map, d, c);
+    if (entry == 0 || entry == 3)
     {
         got = hep::multi_channel_iteration(integrand, n, w, gen).value();
+    }
+    else if (entry == 4)
+    {
+        // the map keeps state between the two requests of a point
+        remembering_map<T> rmap{map, {}};
+        got = hep::multi_channel_iteration(hep::make_multi_channel_integrand<T>(lin<T>{cs}, d, rmap, d, c), n, w, gen).value();
     }
     else
     {
@@ -350,6 +388,7 @@ static void mc_one(report& r, std::string const& id, std::vector<T> const& split
     L const tol = 64 * (d + c + 2) * std::numeric_limits<T>::epsilon() * magnitude<T>(cs) * 4;
     if (!(std::fabs(got - want) <= tol))
         r.violate("biased/multi_channel", id, id + ": lattice estimate " + vf::dec(got) + ", integral of f x jacobian " + vf::dec(want) + " (tolerance " + vf::dec(tol) + ")");
+    if (!lin<T>::complaint().empty()) r.violate("weight-seen-by-integrand", id, id + ": " + lin<T>::complaint());
 }
 
 template <typename T>
@@ -368,12 +407,13 @@ static void mc_cases(report& r, bool thorough)
         for (auto const& e : comps)
         for (int jac = 0; jac != 4; ++jac)
         for (auto const& cs : integrands(d))
-        for (int entry = 0; entry != 3; ++entry)
+        for (int entry = 0; entry != 5; ++entry)    // 0 iteration, 1 via checkpoint, 2 unnormalised, 3 integrand reads the weight, 4 remembering map
         {
             // with the jacobian 1 + y the product f x J must stay linear per cell: constant f in y0 only
             if (jac == 3 && cs[0].second != 0) continue;
-            if (d == 2 && (entry == 2 || (jac != 0 && jac != 3))) continue;
+            if (d == 2 && (entry == 2 || entry == 4 || (jac != 0 && jac != 3))) continue;
             int const scale = entry == 2 ? 3 : 1;
+            if (entry >= 3 && jac == 2) continue;
             std::string const id = tn + " mc C=" + std::to_string(c) + " d=" + std::to_string(d) + " w8=" + vf::join(e) + " jac=" + std::to_string(jac) + " f=" + show(cs)
                 + " entry=" + std::to_string(entry);
             if (!r.want(id)) continue;
